@@ -16,7 +16,8 @@
 //     specification to itself is dropped; whether gta makes the variables of `var a, b = f()` global
 //     symbols carrying their node and comes back to the declaration until the callee is declared;
 //     whether ast takes `var a, b = x, y` apart at package level; whether genGlobalVarDecl collects the
-//     dependencies of every specification (no skipped kinds); fingerprints of those statements.
+//     dependencies of every specification (no skipped kinds); which method selectors matchSelectorMethod
+//     tags with aGetMethod (method expressions and methods with receiver); fingerprints of those statements.
 //
 // A construct that is no longer recognised yields a token "unrecognised: …", which cannot equal
 // the hand-written expectation.
@@ -633,6 +634,69 @@ func collectSkipFact(fd *ast.FuncDecl) string {
 	return other("genGlobalVarDecl: " + stmts(l))
 }
 
+// methodTagFact reads, in matchSelectorMethod, the branch for a method of a source type
+//
+//	if m, lind := n.typ.lookupMethod(name); m != nil { …
+//	    n.action = aGetMethod                        <- here: .both
+//	    if n.child[0].isType(sc) { method expression  <- only here: .exprOnly
+//	    } else { method with receiver }               <- only here: .recvOnly
+//
+// (`aGetMethod` is the action getVarDependencies follows into the method's body).
+func methodTagFact(fd *ast.FuncDecl) string {
+	if fd == nil || fd.Body == nil {
+		return other("function matchSelectorMethod not found")
+	}
+	var branch *ast.IfStmt
+	for _, st := range fd.Body.List {
+		if x, ok := st.(*ast.IfStmt); ok && x.Init != nil && render(x.Init) == "m,lind:=n.typ.lookupMethod(name)" && render(x.Cond) == "m!=nil" {
+			branch = x
+		}
+	}
+	if branch == nil {
+		return other("matchSelectorMethod: no branch `if m, lind := n.typ.lookupMethod(name); m != nil`")
+	}
+	const tag = "n.action=aGetMethod"
+	has := func(l []ast.Stmt) bool {
+		for _, st := range l {
+			if render(st) == tag {
+				return true
+			}
+		}
+		return false
+	}
+	var split *ast.IfStmt
+	for _, st := range branch.Body.List {
+		if x, ok := st.(*ast.IfStmt); ok && render(x.Cond) == "n.child[0].isType(sc)" {
+			split = x
+		}
+	}
+	els, _ := func() (*ast.BlockStmt, bool) {
+		if split == nil {
+			return nil, false
+		}
+		b, ok := split.Else.(*ast.BlockStmt)
+		return b, ok
+	}()
+	if split == nil || els == nil {
+		return other("matchSelectorMethod: no `if n.child[0].isType(sc) { … } else { … }` in the branch")
+	}
+	top, inExpr, inRecv := has(branch.Body.List), has(split.Body.List), has(els.List)
+	n := strings.Count(render(branch.Body), tag)
+	switch {
+	case top && !inExpr && !inRecv && n == 1:
+		return ".both"
+	case !top && inExpr && inRecv && n == 2:
+		return ".both"
+	case !top && !inExpr && inRecv && n == 1:
+		return ".recvOnly"
+	case !top && inExpr && !inRecv && n == 1:
+		return ".exprOnly"
+	case n == 0:
+		return ".none"
+	}
+	return other(fmt.Sprintf("matchSelectorMethod: %d assignments of aGetMethod in the source-method branch", n))
+}
+
 // caseClause finds the first `case <name>:` (a single expression) in a function.
 func caseClause(fd *ast.FuncDecl, name string) *ast.CaseClause {
 	var out *ast.CaseClause
@@ -758,6 +822,7 @@ func main() {
 			{"ast: case token.VAR", nodeHash(astClause)},
 			{"splitVarSpecs", common.FuncHash(fsetA, fa, "", "splitVarSpecs")},
 			{"compDefineX", common.FuncHash(fsetC, fc, "", "compDefineX")},
+			{"matchSelectorMethod", common.FuncHash(fsetC, fc, "", "matchSelectorMethod")},
 		}
 		var dhs []string
 		for _, kv := range dh {
@@ -817,7 +882,8 @@ def depFacts : DepFacts :=
     multiRetry := %s,
     operandRetry := %s,
     splitPaired := %s,
-    collectSkip := %s }
+    collectSkip := %s,
+    methodTag := %s }
 /-- fingerprints of the statements depFacts was read from (getVarDependencies is in sourceHashes) -/
 def depHashes : List (String × String) :=
   [%s]
@@ -826,7 +892,7 @@ end YaegiVerif.Generated.C15
 			common.LeanStrList(tokens(common.FindFunc(fp, "Interpreter", "CompileAST"))),
 			common.LeanStrList(tokens(common.FindFunc(fs, "Interpreter", "importSrc"))),
 			h1, h2, register, add, join, gcases, strings.Join(ihs, ",\n   "),
-			resolve, leanBool(fFuncs), leanBool(fMeths), leanBool(skipSelf), leanBool(mGlobal), leanBool(mRetry), leanBool(opRetry), leanBool(split), collectSkipFact(common.FindFunc(fc, "", "genGlobalVarDecl")),
+			resolve, leanBool(fFuncs), leanBool(fMeths), leanBool(skipSelf), leanBool(mGlobal), leanBool(mRetry), leanBool(opRetry), leanBool(split), collectSkipFact(common.FindFunc(fc, "", "genGlobalVarDecl")), methodTagFact(common.FindFunc(fc, "", "matchSelectorMethod")),
 			strings.Join(dhs, ",\n   ")), nil
 	})
 }
